@@ -546,67 +546,76 @@ type autoResult struct {
 }
 
 func runAutomaton(fn *ssa.Function, start int, classify func(ssa.Instruction) int, delta func(state, event int) int) autoResult {
-	in := make([]uint32, len(fn.Blocks))
-	res := autoResult{ExitStates: map[*ssa.BasicBlock]uint32{}, InStates: map[ssa.Instruction]uint32{}}
-	if len(fn.Blocks) == 0 {
-		return res
+	return runAutomatonE(fn, start, classify, nil, delta)
+}
+
+// automatonPred is the predecessor through which the block `from` of the edge being classified was
+// entered (nil at the entry block); edge classifiers use edgeCondResolved to look through a flag phi.
+var automatonPred *ssa.BasicBlock
+
+// phiEnvFor: the values the phis of b take when b is entered from pred.
+func phiEnvFor(pred, b *ssa.BasicBlock) map[*ssa.Phi]ssa.Value {
+	env := map[*ssa.Phi]ssa.Value{}
+	if pred == nil {
+		return env
 	}
-	in[0] = 1 << uint(start)
-	work := []*ssa.BasicBlock{fn.Blocks[0]}
-	errSeen := map[string]bool{}
-	transfer := func(b *ssa.BasicBlock, s uint32, record bool) uint32 {
-		for _, ins := range b.Instrs {
-			ev := classify(ins)
-			if ev < 0 {
-				continue
-			}
-			if record {
-				res.InStates[ins] |= s
-			}
-			var out uint32
-			for st := 0; st < 31; st++ {
-				if s&(1<<uint(st)) == 0 {
-					continue
-				}
-				nx := delta(st, ev)
-				if nx < 0 {
-					k := fmt.Sprintf("%p/%d/%d", ins, st, ev)
-					if record && !errSeen[k] {
-						errSeen[k] = true
-						res.Errors = append(res.Errors, autoErr{ins, st, ev})
-					}
-					continue
-				}
-				out |= 1 << uint(nx)
-			}
-			s = out
-		}
-		return s
-	}
-	for len(work) > 0 {
-		b := work[len(work)-1]
-		work = work[:len(work)-1]
-		out := transfer(b, in[b.Index], false)
-		for _, s := range b.Succs {
-			if in[s.Index]|out != in[s.Index] {
-				in[s.Index] |= out
-				work = append(work, s)
-			}
+	idx := -1
+	for i, p := range b.Preds {
+		if p == pred {
+			idx = i
 		}
 	}
-	for _, b := range fn.Blocks {
-		if in[b.Index] == 0 {
-			continue
+	if idx < 0 {
+		return env
+	}
+	for _, in := range b.Instrs {
+		ph, ok := in.(*ssa.Phi)
+		if !ok {
+			break
 		}
-		out := transfer(b, in[b.Index], true)
-		if len(b.Succs) == 0 {
-			// distinguish normal return from panic exits: only Return counts as an exit
-			if _, ok := b.Instrs[len(b.Instrs)-1].(*ssa.Return); ok {
-				res.ExitStates[b] = out
-			}
+		env[ph] = ph.Edges[idx]
+	}
+	return env
+}
+
+// feasibleSucc: may the edge b->s be taken when b was entered from pred?  Only branches whose
+// condition is constant once the phis of b are fixed by the incoming edge are pruned ("flag
+// threading": `ok := f(); if !ok {...}` after inlining f is a phi of constants).
+func feasibleSucc(pred, b, s *ssa.BasicBlock) bool {
+	if pred == nil || len(b.Succs) != 2 {
+		return true
+	}
+	ifi, ok := b.Instrs[len(b.Instrs)-1].(*ssa.If)
+	if !ok {
+		return true
+	}
+	v, known := evalConstCond(ifi.Cond, phiEnvFor(pred, b))
+	if !known {
+		return true
+	}
+	if b.Succs[0] == b.Succs[1] {
+		return true
+	}
+	if v {
+		return s == b.Succs[0]
+	}
+	return s == b.Succs[1]
+}
+
+// edgeCondResolved: the condition of the edge from->to with a phi of `from` replaced by the value
+// it has when `from` was entered through automatonPred.
+func edgeCondResolved(from, to *ssa.BasicBlock) (Cond, bool) {
+	ifi, ok := from.Instrs[len(from.Instrs)-1].(*ssa.If)
+	if !ok || len(from.Succs) != 2 {
+		return Cond{}, false
+	}
+	cd := normCond(Cond{V: ifi.Cond, Sense: to == from.Succs[0], If: ifi})
+	if ph, isPhi := cd.V.(*ssa.Phi); isPhi && ph.Block() == from && automatonPred != nil {
+		if e, ok := phiEnvFor(automatonPred, from)[ph]; ok {
+			cd = normCond(Cond{V: e, Sense: cd.Sense, If: ifi})
 		}
 	}
-	return res
+	return cd, true
 }
 
 // countOnPaths computes, for instructions selected by isEvent, the set of counts {0,1,2+}
@@ -1225,6 +1234,25 @@ func evalConstCond(cond ssa.Value, env map[*ssa.Phi]ssa.Value) (val, ok bool) {
 			r, rok := evalConstCond(x.Y, env)
 			if lok && rok {
 				return (l == r) == (x.Op == token.EQL), true
+			}
+		}
+		// two constants (after fixing the phis): numbers, strings, nil
+		cx, okx := resolvePhi(x.X, env).(*ssa.Const)
+		cy, oky := resolvePhi(x.Y, env).(*ssa.Const)
+		if okx && oky {
+			if cx.Value == nil && cy.Value == nil {
+				switch x.Op {
+				case token.EQL:
+					return true, true
+				case token.NEQ:
+					return false, true
+				}
+			}
+			if cx.Value != nil && cy.Value != nil && cx.Value.Kind() == cy.Value.Kind() && cx.Value.Kind() != constant.Bool && cx.Value.Kind() != constant.Unknown {
+				switch x.Op {
+				case token.EQL, token.NEQ, token.LSS, token.LEQ, token.GTR, token.GEQ:
+					return constant.Compare(cx.Value, x.Op, cy.Value), true
+				}
 			}
 		}
 	}
